@@ -20,8 +20,13 @@ Definition sm_run (st : smstate) (rs : list record) : smstate := fold_left sm_st
 (** a record the codec carries faithfully: it decodes to itself and fits the 32-bit length field
     of a frame (the premise of the theorems about files the writer produced; the concrete codec
     of Wal/Codec.v satisfies it on well-formed records shorter than 4 GiB) *)
+Definition id_max : Z := 2 ^ 64 - 1.
+(** the record does not create the entity with the largest identifier (after which the id counter,
+    which saturates, could only hand that identifier out again) *)
+Definition rec_ids_below (r : record) : Prop :=
+  match r with CreateNode id _ | CreateEdge id _ _ _ => id < id_max | _ => True end.
 Definition rec_ok (enc : record -> bytes) (dec : bytes -> option record) (r : record) : Prop :=
-  dec (enc r) = Some r /\ lenZ (enc r) < two32.
+  dec (enc r) = Some r /\ lenZ (enc r) < two32 /\ rec_ids_below r.
 
 Inductive rres (A : Type) := ROk (a : A) | RErr.
 Arguments ROk {A} _.
